@@ -78,9 +78,10 @@ Inductive case :=
   | CasePC (st : settings float) (n rank : nat) (error_tol : option float) (Ks : seq fmat)
            (tol : float) (obs : option (nat * seq (fmat * seq nat)))
   (* (closure, P, logdet) = (K + D)._preconditioner(); Ds = diagonal of D per member;
-     observed: None = (None, None, None), Some [(closure(I_n), P.to_dense(), logdet)] per member *)
+     observed: None = (None, None, None), Some [(closure(I_n), P.to_dense(), logdet)] per member;
+     obs_const = the _constant_diag attribute when the implementation exposes it *)
   | CasePre (st : settings float) (n : nat) (Ks : seq fmat) (Ds : seq fvec)
-            (tol : float) (obs : option (seq (fmat * fmat * float)))
+            (tol : float) (obs_const : option bool) (obs : option (seq (fmat * fmat * float)))
   (* apply_permutation(M, left, right) on one (nr x nc) batch member; observed: the result rows *)
   | CasePerm (nr nc : nat) (M : fmat) (left right : option (seq nat)) (tol : float) (obs : fmat)
   (* inverse_permutation(perm) on one batch member *)
@@ -99,10 +100,12 @@ Definition check_case (c : case) : bool :=
           (m == mo) && (size res == size reso) && all (check_pc_member tol) (zip res reso)
       | _, _ => false
       end
-  | CasePre st n Ks Ds tol obs =>
+  | CasePre st n Ks Ds tol obs_const obs =>
       match preconditioner ArFloat mgs st n Ks Ds, obs with
       | None, None => true
       | Some o, Some ob =>
+          (* the branch decision itself (_constant_diag: exact equality with the first entry, whole batch) *)
+          (if obs_const is Some cf then cf == o_const o else true) &&
           (size (o_cache o) == size ob) &&
           all (fun x : (fmat * fvec * pcache float) * (fmat * fmat * float) =>
                  let: ((L, d, ch), (clI, P, ld)) := x in
